@@ -193,6 +193,15 @@ PROPS = {
         "rule": "RAND-free, id-free programs on generated states: run, an unrelated run (touching the RNG and the node counter), run again, then 2/4/8/16 threads released from a barrier each running the same program on its own copy of the state; all final states must coincide and equal the model's run; 2/8/16 threads creating 20000 (thorough 100000) nodes each through Graph::add_node and GRAPH.NODE*ADD: ids pairwise distinct; the pushr binary on 60 (thorough 400) terminating programs: last printed EXEC / CODE / INT stacks against the model; source inventory of process-global mutable state and randomness sources; thorough: the run and stack-grid scenarios in a debug and an optimised build must produce identical lines; non-trivial = every case",
         "assumptions": ["interleavings inside a step are excluded by Rust's ownership rules (each thread owns its PushState), not by the model; schedules are those the OS produces", "the only process-global mutable state is the atomic node counter with a single fetch_add site (checked by the source inventory on every run)"],
     },
+    "C15": {
+        "scenarios": lambda tier, q: [
+            {"name": "growth", "args": []},
+            {"name": "exec", "args": ["*", "100" if tier == "quick" else "1000"]},
+        ],
+        "signature": lambda req: "growth" if req.startswith("( growth") else sig_exec(req),
+        "rule": "every registered instruction by NAME on generated states (size-like operands up to the envelope cap of 2000, negative and extreme elsewhere): the weight of the state (points, vector elements, characters, queue and graph contents) after the step against a bound that depends only on the weight before; five structure-doubling programs (DUP + LIST / APPEND / CONS under EXEC.Y) stepped 10..45 (thorough ..70) times under the default limits: largest CODE / EXEC item against max_points_in_program; non-trivial = the state changed",
+        "assumptions": ["PARTIAL: wall-clock time and allocator behaviour of a step are runtime behaviour; the model measures growth of the state, which bounds the memory a step retains", "operands above the envelope cap are not executed (they would exhaust the host: that is finding K05 itself)"],
+    },
     "C01": {
         "scenarios": lambda tier, q: [
             {"name": "exec", "args": ["*"]},
